@@ -72,6 +72,9 @@ func (c *ctx) runTrieJob(j *trieJob, out chan<- batch) {
 		res.Violate(lib.Violation{Sig: "build-trie-fails:" + spec.Impl, What: fmt.Sprintf("building the trie fails (panic=%v): %v", panicked, err), Replay: spec})
 		return
 	}
+	if spec.History != 0 {
+		res.Hit("trie-built-through-a-history:" + spec.Impl)
+	}
 	if want := refRoot(hf, spec.KVs); !want.Equal(&bt.root) {
 		res.Mismatch(lib.Mismatch{Sig: "root-differs-from-reference:" + spec.Impl, Input: spec, Model: fhex(&want), Impl: fhex(&bt.root)})
 		return
@@ -248,7 +251,7 @@ func (c *ctx) runTrieJob(j *trieJob, out chan<- batch) {
 				// is abandoned after the deadline and keeps a core busy), otherwise only count
 				if atomic.AddInt32(&c.hangsRun, 1) <= 1 {
 					kf := bitsToFelt(t.Key)
-					tc.impl = realVerifyFelt(verifier, hf, &root, &kf, t.Proof, []time.Duration{15 * time.Second, 45 * time.Second})
+					tc.impl = realVerifyFelt(verifier, hf, &root, &kf, t.Proof, []time.Duration{10 * time.Second, 30 * time.Second})
 				} else {
 					tc.fuelOK = true
 					res.Hit("tamper:trie2:embed-plain:predicted-hang-not-run")
@@ -435,7 +438,11 @@ func (c *ctx) trieSection(r *lib.RNG, out chan<- batch) {
 			if r.Chance(1, 5) {
 				hash = "pos"
 			}
-			newJob(TrieSpec{Impl: trieImpls[i%3], Hash: hash, Height: h, KVs: kvsOf(r, genKeys(r, h, n))}).allKeys = true
+			sp := TrieSpec{Impl: trieImpls[i%3], Hash: hash, Height: h, KVs: kvsOf(r, genKeys(r, h, n))}
+			if i%2 == 1 {
+				sp.History = 1 + r.Uint64()%1000000
+			}
+			newJob(sp).allKeys = true
 		}
 	}
 	// 3. height 251: shared-prefix families, extremes; honest + every corruption, real verifiers
@@ -459,7 +466,11 @@ func (c *ctx) trieSection(r *lib.RNG, out chan<- batch) {
 		if r.Chance(1, 5) {
 			hash = "pos"
 		}
-		j := newJob(TrieSpec{Impl: trieImpls[i%3], Hash: hash, Height: 251, KVs: kvsOf(r, genKeys(r, 251, n))})
+		sp := TrieSpec{Impl: trieImpls[i%3], Hash: hash, Height: 251, KVs: kvsOf(r, genKeys(r, 251, n))}
+		if i%2 == 1 {
+			sp.History = 1 + r.Uint64()%1000000
+		}
+		j := newJob(sp)
 		j.queries = c.f.Scale(6, 14)
 		j.tamper = true
 		j.deep = i%10 == 0
